@@ -22,8 +22,11 @@ IDMAP = {"K1": "Europe/Berlin", "K2": "America/New_York", "U": "Custom/Nowhere",
          # ids the provider resolves under another spelling: the VTIMEZONE that closes the gap must carry THIS spelling
          "K5": "W. Europe Standard Time", "K6": "/America/New_York", "K7": "US/Eastern",
          # UTC named by an explicit TZID parameter (not the Z suffix) is a used id like any other
-         "K8": "UTC", "K9": "Etc/UTC"}
-ALIAS = {"K5", "K6", "K7", "K8", "K9"}
+         "K8": "UTC", "K9": "Etc/UTC",
+         # zones at the edge of the offset range (+14:00), and ids only ONE provider resolves (known = what tzp.timezone() finds)
+         "K10": "Pacific/Kiritimati", "K11": "Etc/GMT-14", "K12": "Line Islands Standard Time", "K13": "posix/Europe/Vaduz", "K14": "europe/berlin"}
+ALIAS = {"K5", "K6", "K7", "K8", "K9", "K12", "K13", "K14"}
+ONLY = {"K13": "zoneinfo", "K14": "pytz"}
 REV = {v: k for k, v in IDMAP.items()}
 F, L_ = date(2020, 1, 1), date(2021, 6, 1)
 CUSTOM = """BEGIN:VTIMEZONE\r\nTZID:%s\r\nBEGIN:STANDARD\r\nDTSTART:19700101T000000\r\nTZOFFSETFROM:+0200\r\nTZOFFSETTO:+0200\r\nTZNAME:CST\r\nEND:STANDARD\r\nEND:VTIMEZONE\r\n"""
@@ -196,13 +199,14 @@ def run(ctx: Ctx):
     # ------------------------------------------------------------- RECORD: richer calendars
     ev, meta = [], []
     n = 60 if ctx.quick else 600
-    ids = ["K1", "K2", "K3", "K4", "U", "U2", "K5", "K6", "K7", "K8", "K9"]
+    ids = ["K1", "K2", "K3", "K4", "U", "U2", "K5", "K6", "K7", "K8", "K9", "K10", "K11", "K12", "K13", "K14"]
     sites = ["single", "list", "period", "nested", "due", "second-of-many"]
     try:
         for i in range(n):
             tzp.use(("zoneinfo", "pytz")[i % 2])
             uses = [{"id": rnd.choice(ids), "site": rnd.choice(sites)} for _ in range(rnd.randint(0, 5))]
-            present = {k: rnd.choice([0, 0, 1, 2]) for k in ids}
+            # VTIMEZONEs are generated for ids the ACTIVE provider resolves (an id only the other provider knows is "unknown" here)
+            present = {k: (rnd.choice([0, 0, 1, 2]) if ONLY.get(k, tzp.name) == tzp.name else 0) for k in ids}
             tzp.use(tzp.name)
             cal = build(uses, present, rnd)
             if rnd.random() < 0.5:
@@ -214,10 +218,12 @@ def run(ctx: Ctx):
     finally:
         tzp.use_default()
     ctx.sample({"trace_event": ev[0]})
-    cfg = cfg_text(spec="Spec2", constants={"Ids": set(ids), "Known": {"K1", "K2", "K3", "K4", "K5", "K6", "K7", "K8", "K9"}, "Sites": set(sites),
-                                           "MaxUses": 9, "MaxTz": 2, "Old": False})
-    for idx, clause, known in ctx.validate_trace("Trace_UsedTzids", ev, cfg, chunk=5000, timeout=1200):
-        ctx.fail(clause, meta[idx], ev[idx]["seq"], None)
+    for prov in ("zoneinfo", "pytz"):
+        known_ids = {k for k in ids if k.startswith("K") and ONLY.get(k, prov) == prov}
+        cfg = cfg_text(spec="Spec2", constants={"Ids": set(ids), "Known": known_ids, "Sites": set(sites), "MaxUses": 9, "MaxTz": 2, "Old": False})
+        sel = [j for j, m in enumerate(meta) if m["provider"] == prov]
+        for idx, clause, known in ctx.validate_trace("Trace_UsedTzids", [ev[j] for j in sel], cfg, chunk=5000, timeout=1200, name=f"trace-{prov}"):
+            ctx.fail(clause, meta[sel[idx]], ev[sel[idx]]["seq"], None)
     # ------------------------------------------------------------- histories in which the provider learns / forgets custom ids
     rh0 = ctx.mc("MC_UsedTzidsHist", cfg_text(spec="Spec", constants={"Iana": {"K1"}, "Custom": {"U"}, "MaxOps": 4, "NegMemo": True},
                                               invariants=["InvClosed"]), expect_ok=False, count=False, workers=1, timeout=300)
